@@ -31,10 +31,3 @@ Definition days_in_month (y m : Z) : Z :=
    normalise anything (proleptic Gregorian calendar) *)
 Definition date_valid (a : date) : bool :=
   (1 <=? d_month a) && (d_month a <=? 12) && (1 <=? d_day a) && (d_day a <=? days_in_month (d_year a) (d_month a)).
-
-(* Day number (days since 0000-03-01 in the proleptic Gregorian calendar, shifted): used only to
-   state that the lexicographic order is the chronological one on valid dates. *)
-Definition day_number (a : date) : Z :=
-  let y := if d_month a <=? 2 then d_year a - 1 else d_year a in
-  let mp := if d_month a <=? 2 then d_month a + 9 else d_month a - 3 in
-  365 * y + y / 4 - y / 100 + y / 400 + (153 * mp + 2) / 5 + d_day a - 1.
